@@ -447,7 +447,7 @@ func c06Corpus(r *rng, n int) []string {
 
 func runC06(c *runCtx) error {
 	r := newRng(c.seed)
-	header := "From Coq Require Import List String ZArith.\nFrom KV Require Import Base.Bytes Model.Ast Model.Value Corr.EvalCommon Corr.C06.\nImport ListNotations.\nOpen Scope string_scope.\n"
+	header := "From Coq Require Import List String ZArith.\nFrom KV Require Import Base.Bytes Model.Ast Model.Value Corr.EvalCommon Corr.C06.\nFrom KV Require Import Corr.C06Text.\nImport ListNotations.\nOpen Scope string_scope.\nNotation case := xcase (only parsing).\nNotation mismatches := xmismatches (only parsing).\nNotation Case := XCase (only parsing).\n"
 	e := newEmitter(c.out, "C06", header, 250)
 	e.m.Rule = "valid statements (README examples, typed grammar for every statement kind), single-edit corruptions at token and byte level, byte mutations, deep nesting (4 kB) x 6 hostile stores (empty, non-numeric, extreme numbers, mixed-type JSON, non-UTF-8, 44 pairs of mixed kinds) x {row, batch} x B in {1,3,32} x paddings; plus the shapes of w5C06Shapes (long chunks with mixed-type columns, aliases over point reads, ORDER BY over mixed kinds, aggregates over unconvertible text) on a 44-pair mixed store in row mode and batch mode with B in {1,3,7,32,100}; each case in a child process; non-trivial = the case differs from every other case text; the Coq side re-evaluates the select fields of valid statements with the proved-panic-free evaluator twin"
 	nValid, nMut := 150, 5
@@ -552,6 +552,7 @@ func runC06(c *runCtx) error {
 			e.fail(idx, "the library "+map[string]string{"PANIC": "panicked", "FATAL": "died with a fatal runtime error", "TIMEOUT": "did not terminate"}[o.Class]+": "+o.Info, sig, rp)
 		}
 	}
+	txStream(c, e, newRng(c.seed+0x6c06)) // harness/c06text.go: the whole text twins, outcome classes
 	e.m.Cases = len(e.cases)
 	e.m.Notes = append(e.m.Notes, fmt.Sprintf("process-level exploration: %d runs of %d distinct query texts", len(jobs), len(seenQ)))
 	if len(e.m.Samples) < 8 {
